@@ -103,43 +103,11 @@ func runBuildLayout(c *Ctx, r *RuleRun) {
 		if !ok {
 			return
 		}
-		if obj := p.CalleeObj(cl); obj != nil && funcIs(obj, "bytes", "Buffer", "Write") {
-			typ, enc := encOf(cl.Call.Args[1])
-			writes = append(writes, write{cl, cl.Call.Args[1], typ})
+		if data := bufferWriteArg(p, build, cl); data != nil {
+			typ, enc := encOf(data)
+			writes = append(writes, write{cl, data, typ})
 			if enc != nil {
 				encCalls[typ] = enc
-			}
-		} else if g := cl.Call.StaticCallee(); g != nil && p.InModule(g) && g.Pkg == build.Pkg && g.Name() != "Encode" {
-			// a helper that always writes its []byte parameter into its *bytes.Buffer parameter
-			bi, di := -1, -1
-			for i, pr := range g.Params {
-				if pt, ok := pr.Type().Underlying().(*types.Pointer); ok {
-					if n, ok := pt.Elem().(*types.Named); ok && n.Obj().Pkg() != nil && n.Obj().Pkg().Path() == "bytes" && n.Obj().Name() == "Buffer" {
-						bi = i
-					}
-				}
-				if sl, ok := pr.Type().Underlying().(*types.Slice); ok {
-					if bt, ok := sl.Elem().Underlying().(*types.Basic); ok && bt.Kind() == types.Byte {
-						di = i
-					}
-				}
-			}
-			if bi >= 0 && di >= 0 {
-				md := NewMustDo(p, func(i ssa.Instruction) bool {
-					c2, ok := i.(*ssa.Call)
-					if !ok {
-						return false
-					}
-					o2 := p.CalleeObj(c2)
-					return o2 != nil && funcIs(o2, "bytes", "Buffer", "Write") && c2.Call.Args[0] == ssa.Value(g.Params[bi]) && c2.Call.Args[1] == ssa.Value(g.Params[di])
-				})
-				if md.Func(g) {
-					typ, enc := encOf(cl.Call.Args[di])
-					writes = append(writes, write{cl, cl.Call.Args[di], typ})
-					if enc != nil {
-						encCalls[typ] = enc
-					}
-				}
 			}
 		}
 		if g := cl.Call.StaticCallee(); g != nil && g.Name() == "Encode" && g.Signature.Recv() != nil {
@@ -253,7 +221,9 @@ func runBuildAllBlocks(c *Ctx, r *RuleRun) {
 	fn := p.FnName(build)
 	// the current block: a local Data cell that receives appends to its Entries in a loop
 	var cell *ssa.Alloc
-	eachInstr(build, func(ins ssa.Instruction) {
+	// (the loop that cuts the entries into blocks may live in a helper of Build: the analysis runs where it is)
+	top := build
+	eachInstrOf(localFns(p, top), func(ins ssa.Instruction) {
 		st, ok := ins.(*ssa.Store)
 		if !ok || !inLoop(st.Block()) {
 			return
@@ -261,6 +231,7 @@ func runBuildAllBlocks(c *Ctx, r *RuleRun) {
 		if fv, base := fieldOfAddr(st.Addr); fv == entriesF {
 			if al, ok := base.(*ssa.Alloc); ok {
 				cell = al
+				build = al.Parent()
 			}
 		}
 	})
@@ -342,6 +313,9 @@ func runBuildAllBlocks(c *Ctx, r *RuleRun) {
 	}
 	// target: the first use of the block list after the fill loop (len / range over it)
 	isUse := func(ins ssa.Instruction) bool {
+		if _, isRet := ins.(*ssa.Return); isRet && build != top {
+			return !fill.body[ins.Block()] // the helper hands the list of blocks back
+		}
 		cl, ok := ins.(*ssa.Call)
 		if !ok || isPush(ins) {
 			return false
@@ -496,6 +470,36 @@ func runWalVersion(c *Ctx, r *RuleRun) {
 				"ParseVersion does not rebuild the version from components 1 and 2 of `wal-<date>-<nanoseconds>.log`: versions parsed from file names do not compare with the current wal's version as Create wrote them, and recovery selects the wrong files")
 		})
 		if !found {
+			// written as a concatenation: parts[1] + "-" + parts[2]
+			eachInstr(parse, func(ins ssa.Instruction) {
+				ret, ok := ins.(*ssa.Return)
+				if !ok || len(ret.Results) != 1 {
+					return
+				}
+				var flat func(v ssa.Value) []ssa.Value
+				flat = func(v ssa.Value) []ssa.Value {
+					if bo, ok := v.(*ssa.BinOp); ok && bo.Op == token.ADD {
+						return append(flat(bo.X), flat(bo.Y)...)
+					}
+					return []ssa.Value{v}
+				}
+				parts := flat(retOperand(ret, 0))
+				if len(parts) < 2 {
+					return
+				}
+				found = true
+				good := len(parts) == 3
+				if good {
+					_, k0, ok0 := component(parts[0])
+					sep, okS := constString(parts[1])
+					_, k2, ok2 := component(parts[2])
+					good = ok0 && ok2 && okS && k0 == 1 && k2 == 2 && sep == "-"
+				}
+				r.Check(good, fn, "version = components 1 and 2 of the file name", p.Pos(instrPos(ret)), "parts[1] + \"-\" + parts[2] of wal-<date>-<nanos>.log",
+					"ParseVersion does not rebuild the version from components 1 and 2 of `wal-<date>-<nanoseconds>.log`: versions parsed from file names do not compare with the current wal's version as Create wrote them, and recovery selects the wrong files")
+			})
+		}
+		if !found {
 			r.Undecided(fn, "version = components 1 and 2 of the file name", p.Pos(parse.Pos()), "no Sprintf found")
 		}
 	}
@@ -511,8 +515,15 @@ func runWalVersion(c *Ctx, r *RuleRun) {
 			if cm.Y == nil {
 				continue
 			}
-			p1, k1, ok1 := component(cm.X)
-			p2, k2, ok2 := component(cm.Y)
+			x, y := cm.X, cm.Y
+			// strings.Compare(a, b) op 0 says a op b
+			if a, b, isCmp := stringsCompare(x); isCmp {
+				if k, isK := constInt(y); isK && k == 0 {
+					x, y = a, b
+				}
+			}
+			p1, k1, ok1 := component(x)
+			p2, k2, ok2 := component(y)
 			if !ok1 || !ok2 || k1 != k2 || p1 == p2 {
 				continue
 			}
@@ -531,11 +542,19 @@ func runWalVersion(c *Ctx, r *RuleRun) {
 			return
 		}
 		k, isK := constInt(retOperand(ret, 0))
+		// `return strings.Compare(parts1[i], parts2[i])` answers -1, 0 or 1 as component i is smaller, equal or larger:
+		// each outcome that is still possible here is judged like a constant answer
+		var cmpK int64 = -1
 		if !isK {
-			r.Undecided(fn, "answer", p.Pos(instrPos(ret)), "non-constant result")
-			return
+			a, b, isCmp := stringsCompare(retOperand(ret, 0))
+			p1, k1, ok1 := component(a)
+			p2, k2, ok2 := component(b)
+			if !isCmp || !ok1 || !ok2 || k1 != k2 || p1 >= p2 {
+				r.Undecided(fn, "answer", p.Pos(instrPos(ret)), "non-constant result")
+				return
+			}
+			cmpK = k1
 		}
-		n++
 		// what is known about each component at this return: a subset of {<, =, >}
 		rel := map[int64]map[string]bool{0: {"<": true, "=": true, ">": true}, 1: {"<": true, "=": true, ">": true}}
 		allow := map[string][]string{"<": {"<"}, "<=": {"<", "="}, "==": {"="}, "!=": {"<", ">"}, ">=": {"=", ">"}, ">": {">"}}
@@ -553,6 +572,32 @@ func runWalVersion(c *Ctx, r *RuleRun) {
 			rel[f.k] = next
 		}
 		only := func(kk int64, what string) bool { return len(rel[kk]) == 1 && rel[kk][what] }
+		if cmpK >= 0 {
+			possible := rel[cmpK]
+			for _, o := range []struct {
+				rel string
+				ans int64
+			}{{"<", -1}, {"=", 0}, {">", 1}} {
+				if !possible[o.rel] {
+					continue
+				}
+				n++
+				rel[cmpK] = map[string]bool{o.rel: true}
+				switch {
+				case o.ans < 0:
+					r.Check(only(0, "<") || (only(0, "=") && only(1, "<")), fn, "-1 only when smaller", p.Pos(instrPos(ret)), "first component smaller, or equal and second smaller",
+						"a negative answer is given although the first version is not known to be smaller (component by component): recovery takes newer logs for older ones or skips older ones")
+				case o.ans > 0:
+					r.Check(only(0, ">") || (only(0, "=") && only(1, ">")), fn, "1 only when larger", p.Pos(instrPos(ret)), "first component larger, or equal and second larger",
+						"a positive answer is given although the first version is not known to be larger")
+				default:
+					r.Check(only(0, "=") && only(1, "="), fn, "0 only when equal", p.Pos(instrPos(ret)), "both components neither smaller nor larger",
+						"equality is answered although a component differs: an older wal compares equal to the current one and is not replayed")
+				}
+			}
+			return
+		}
+		n++
 		switch {
 		case k < 0:
 			r.Check(only(0, "<") || (only(0, "=") && only(1, "<")), fn, "-1 only when smaller", p.Pos(instrPos(ret)), "first component smaller, or equal and second smaller",
@@ -634,4 +679,67 @@ func runSkipUnlink(c *Ctx, r *RuleRun) {
 	if n == 0 {
 		r.Undecided(fn, "redirected only where it points at the found element", "", "no store to a forward pointer in a loop of Delete")
 	}
+}
+
+// stringsCompare: v is a call strings.Compare(a, b) (or cmp.Compare on strings).
+func stringsCompare(v ssa.Value) (a, b ssa.Value, ok bool) {
+	cl, isCall := v.(*ssa.Call)
+	if !isCall || len(cl.Call.Args) != 2 {
+		return nil, nil, false
+	}
+	f := cl.Call.StaticCallee()
+	if f == nil || f.Pkg == nil {
+		if f == nil || f.Origin() == nil || f.Origin().Pkg == nil {
+			return nil, nil, false
+		}
+		f = f.Origin()
+	}
+	if !isStringType(cl.Call.Args[0].Type()) {
+		return nil, nil, false
+	}
+	switch f.Pkg.Pkg.Path() + "." + f.Name() {
+	case "strings.Compare", "cmp.Compare":
+		return cl.Call.Args[0], cl.Call.Args[1], true
+	}
+	return nil, nil, false
+}
+
+// bufferWriteArg: the []byte the call writes into a bytes.Buffer - (*bytes.Buffer).Write itself, or a helper of the
+// package that writes its []byte parameter into its *bytes.Buffer parameter on every path; nil otherwise.
+func bufferWriteArg(p *Prog, in *ssa.Function, cl *ssa.Call) ssa.Value {
+	if obj := p.CalleeObj(cl); obj != nil && funcIs(obj, "bytes", "Buffer", "Write") {
+		return cl.Call.Args[1]
+	}
+	g := cl.Call.StaticCallee()
+	if g == nil || !p.InModule(g) || g.Pkg != in.Pkg || g.Name() == "Encode" {
+		return nil
+	}
+	bi, di := -1, -1
+	for i, pr := range g.Params {
+		if pt, ok := pr.Type().Underlying().(*types.Pointer); ok {
+			if n, ok := pt.Elem().(*types.Named); ok && n.Obj().Pkg() != nil && n.Obj().Pkg().Path() == "bytes" && n.Obj().Name() == "Buffer" {
+				bi = i
+			}
+		}
+		if sl, ok := pr.Type().Underlying().(*types.Slice); ok {
+			if bt, ok := sl.Elem().Underlying().(*types.Basic); ok && bt.Kind() == types.Byte {
+				di = i
+			}
+		}
+	}
+	if bi < 0 || di < 0 || di >= len(cl.Call.Args) {
+		return nil
+	}
+	md := NewMustDo(p, func(i ssa.Instruction) bool {
+		c2, ok := i.(*ssa.Call)
+		if !ok {
+			return false
+		}
+		o2 := p.CalleeObj(c2)
+		return o2 != nil && funcIs(o2, "bytes", "Buffer", "Write") && c2.Call.Args[0] == ssa.Value(g.Params[bi]) && c2.Call.Args[1] == ssa.Value(g.Params[di])
+	})
+	if md.Func(g) {
+		return cl.Call.Args[di]
+	}
+	return nil
 }
